@@ -94,7 +94,7 @@ def _build_unit(args):
     bc0 = os.path.join(outdir, stem + '.0.bc')
     bc1 = os.path.join(outdir, stem + '.bc')
     js = os.path.join(outdir, stem + '.json')
-    c = [CLANG] + flags + ['-O0', '-Xclang', '-disable-O0-optnone', '-fwrapv', '-gline-tables-only', '-emit-llvm', '-c',
+    c = [CLANG] + flags + ['-O0', '-Xclang', '-disable-O0-optnone', '-fwrapv', '-g', '-emit-llvm', '-c',
                            src, '-o', bc0]
     r = subprocess.run(c, stdout=subprocess.PIPE, stderr=subprocess.STDOUT, text=True)
     if r.returncode != 0:
